@@ -29,6 +29,12 @@ const (
 	KTree = "tr"
 )
 
+// Guards switches the known-finding trigger guards on: an operation that would
+// exercise the trigger of a listed known finding (known-findings.json) is
+// skipped (outcome "guard") so that the rest of the space is explored cleanly.
+// The dedicated reproducers of the findings run with Guards off.
+var Guards = true
+
 var objKeys = []string{"k0", "k1", "k2"}
 
 // text tokens: index by V mod len. Includes the empty string (pure deletion),
@@ -88,6 +94,7 @@ func uniq(base, v int) int { return base*100 + mod(v, 50) }
 func ApplyOp(d *document.Document, op Op, valBase int, fail string) (res Resolved) {
 	res.Args = map[string]any{}
 	skip := false
+	guard := ""
 	run := func(r *json.Object, p *presence.Presence) error {
 		switch op.K {
 		case "obj.set":
@@ -219,6 +226,11 @@ func ApplyOp(d *document.Document, op Op, valBase int, fail string) (res Resolve
 			}
 			i := mod(op.A, a.Len())
 			v := uniq(valBase, op.V)
+			if Guards && a.Get(i).MovedAt() != nil {
+				// KF-ARRAY-SET-MOVED: Set on an element whose position was moved
+				guard = "KF-ARRAY-SET-MOVED"
+				return nil
+			}
 			a.SetInteger(i, v)
 			res.Args["idx"], res.Args["val"] = i, v
 		case "txt.edit":
@@ -283,11 +295,11 @@ func ApplyOp(d *document.Document, op Op, valBase int, fail string) (res Resolve
 			}
 			switch fail {
 			case "err":
-				if !skip {
+				if !skip && guard == "" {
 					return fmt.Errorf("injected updater failure")
 				}
 			case "panic":
-				if !skip {
+				if !skip && guard == "" {
 					panic("injected updater panic")
 				}
 			}
@@ -296,6 +308,9 @@ func ApplyOp(d *document.Document, op Op, valBase int, fail string) (res Resolve
 		if err != nil {
 			res.Outcome = "err"
 			res.Err = err.Error()
+		} else if guard != "" {
+			res.Outcome = "skip"
+			res.Args["guard"] = guard
 		} else if skip {
 			res.Outcome = "skip"
 		} else {
